@@ -264,6 +264,7 @@ fn main() {
             finish(&c, &a, refmodel::json::obj().set("digest", format!("{digest:016x}")).set("shard", a.shard));
         }
         "noop" => {}
+        "evals-per-poll" => println!("{:.3}", engmon::evals_per_poll()),
         "C14" => {
             let mut c = Collector::new(&a.cmd, a.journal.as_deref());
             if let Some(rp) = &a.replay {
